@@ -647,6 +647,269 @@ def oracle_additive(ctx, W, L, pat, c1, c2):
 
 
 # ---------------------------------------------------------------------------------------------
+# Hermitian flag, both ways: coefficient tensors with every kind of (partial) symmetry on every pattern
+def herm_ref_flag(pat, c):
+    """the definition, index by index (no .T): the term equals its own adjoint - the pattern read backwards is the
+    adjoint pattern and c[i1..ik] = conj(c[ik..i1]) for every multi-index"""
+    k = len(pat)
+    if any(pat[i] == pat[k - 1 - i] for i in range(k)):
+        return False
+    c = np.asarray(c)
+    return all(c[idx] == np.conj(c[idx[::-1]]) for idx in itertools.product(*[range(n) for n in c.shape]))
+
+
+SYMMETRY_KINDS = ["reversal", "half-exchange", "pair-swaps", "cyclic-shift", "real-fully-symmetric", "real-half-exchange",
+                  "generic", "anti-reversal", "reversal-one-entry-broken", "half-exchange-and-reversal", "diagonal-real", "zero"]
+
+
+def symmetric_coeffs(rng, L, k, kind):
+    """complex tensor g made symmetric under ONE index permutation combined with complex conjugation (or another
+    listed variant); entries dyadic, so comparisons are exact"""
+    g = rand_coeffs(rng, L, k, "dense")
+    h = k // 2
+    rev = tuple(range(k))[::-1]
+    half = tuple(range(h, k)) + tuple(range(h))
+    if kind == "reversal":
+        return g + g.conj().transpose(rev)
+    if kind == "half-exchange":
+        return g + g.conj().transpose(half)
+    if kind == "pair-swaps":                         # (0 1)(2 3)..: neighbouring indices exchanged
+        perm = tuple(i ^ 1 if (i ^ 1) < k else i for i in range(k))
+        return g + g.conj().transpose(perm)
+    if kind == "cyclic-shift":
+        perm = tuple(range(1, k)) + (0,)
+        out = np.zeros_like(g)
+        t = g
+        for _ in range(k):
+            out = out + t
+            t = t.transpose(perm)
+        return out
+    if kind == "real-fully-symmetric":
+        out = np.zeros(g.shape)
+        r = np.asarray(rand_coeffs(rng, L, k, "real"), dtype=float)
+        for perm in itertools.permutations(range(k)):
+            out = out + r.transpose(perm)
+        return out.astype(complex)
+    if kind == "real-half-exchange":
+        r = np.asarray(rand_coeffs(rng, L, k, "real-int"), dtype=float)
+        return (r + r.transpose(half)).astype(complex)
+    if kind == "generic":
+        return g
+    if kind == "anti-reversal":
+        return g - g.conj().transpose(rev)
+    if kind == "reversal-one-entry-broken":
+        c = g + g.conj().transpose(rev)
+        idx = tuple(rng.randrange(L) for _ in range(k))
+        c[idx] += rng.choice([1, 1j, 0.5])
+        return c
+    if kind == "half-exchange-and-reversal":
+        c = g + g.conj().transpose(rev)
+        return c + c.conj().transpose(half)
+    if kind == "diagonal-real":
+        c = np.zeros_like(g)
+        for i in range(L):
+            c[(i,) * k] = rng.choice([1, -2, 0.5, 3])
+        return c
+    if kind == "zero":
+        return np.zeros_like(g)
+    raise ValueError(kind)
+
+
+def herm_sweep_inputs(rng, thorough):
+    """(L, pattern, coefficients, symmetry kind): every arrangement of 2, 4 (6 on two sites) operators x every symmetry"""
+    out = []
+    for k, Ls in ((2, [2, 3]), (4, [2, 3] if thorough else [2, 2, 3]), (6, [2])):
+        pats = list(itertools.product((0, 1), repeat=k))
+        for pat in pats:
+            palin = all(pat[i] != pat[k - 1 - i] for i in range(k))
+            kinds = SYMMETRY_KINDS if palin else rng.sample(SYMMETRY_KINDS, 1 if k == 6 and not thorough else 2)
+            if k == 6 and palin and not thorough:
+                kinds = ["reversal", "half-exchange", "pair-swaps", "half-exchange-and-reversal"] + rng.sample(SYMMETRY_KINDS, 2)
+            for kind in kinds:
+                if kind == "real-fully-symmetric" and k == 6:
+                    continue
+                L = rng.choice(Ls)
+                out.append((L, list(pat), symmetric_coeffs(rng, L, k, kind), kind))
+    return out
+
+
+def oracle_herm2(ctx, W, L, pat, coeffs, sym=None):
+    """the flag both ways: flagged => the matrix is Hermitian (the property); a term that IS its own adjoint
+    (pattern and coefficients, index by index) must be flagged and must have a Hermitian matrix"""
+    d = dict(desc_terms(L, [(pat, coeffs)]), kind="herm2", symmetry=sym)
+    t = W.term(L, pat, coeffs)
+    flag = bool(t.is_hermitian())
+    want = herm_ref_flag(pat, coeffs)
+    M = dense(W.qib.FieldOperator([t]).as_matrix())
+    mh = np.array_equal(M, M.conj().T)
+    if flag and not mh:
+        ctx.fail("is_hermitian:flagged-but-matrix-not-hermitian", d, "M = M^dagger", "max diff %g" % np.abs(M - M.conj().T).max())
+    if want and not flag:
+        ctx.fail("is_hermitian:not-flagged-although-the-term-equals-its-adjoint", d, True, False)
+    if want and not mh:
+        ctx.fail("as_matrix:term-equal-to-its-adjoint-has-non-hermitian-matrix", d, "M = M^dagger", "max diff %g" % np.abs(M - M.conj().T).max())
+    return flag, want, mh
+
+
+# ---------------------------------------------------------------------------------------------
+# memory layouts and library-made operands for + and @
+OP_LAYOUTS = ["C", "F", "transposed-view", "strided", "reversed", "swapaxes-view"]
+
+
+def lay_out(c, name):
+    """the same logical tensor (np.array_equal holds), stored differently"""
+    c = np.asarray(c)
+    if c.ndim == 0 or name == "C":
+        return np.ascontiguousarray(c) if c.ndim else c
+    if name == "F":
+        return np.asfortranarray(c)
+    if name == "transposed-view":
+        return np.ascontiguousarray(c.T).T
+    if name == "strided":
+        big = np.full(tuple(2 * n for n in c.shape), 7, dtype=c.dtype)
+        big[tuple(slice(None, None, 2) for _ in c.shape)] = c
+        return big[tuple(slice(None, None, 2) for _ in c.shape)]
+    if name == "reversed":
+        rv = tuple(slice(None, None, -1) for _ in c.shape)
+        return np.ascontiguousarray(c[rv])[rv]
+    if name == "swapaxes-view":
+        if c.ndim < 2:
+            return np.ascontiguousarray(c)
+        return np.swapaxes(np.ascontiguousarray(np.swapaxes(c, 0, c.ndim - 1)), 0, c.ndim - 1)
+    raise ValueError(name)
+
+
+def expr_build(W, L, e):
+    """operand expression (JSON) -> FieldOperator made through the library's own methods"""
+    o = e["op"]
+    if o == "leaf":
+        _, terms = undesc_terms(dict(e["terms"], L=L))
+        return W.op(L, [(p, lay_out(c, lay)) for (p, c), lay in zip(terms, e["layouts"])])
+    if o == "adjoint":
+        return expr_build(W, L, e["x"]).adjoint()
+    if o == "matmul":
+        return expr_build(W, L, e["x"]) @ expr_build(W, L, e["y"])
+    if o == "add":
+        return expr_build(W, L, e["x"]) + expr_build(W, L, e["y"])
+    raise ValueError(o)
+
+
+def expr_ref(L, e):
+    """its matrix from the definition: reference ladder matrices, dagger, matrix product, sum"""
+    o = e["op"]
+    if o == "leaf":
+        _, terms = undesc_terms(dict(e["terms"], L=L))
+        return ref_op_matrix(L, terms)
+    if o == "adjoint":
+        return expr_ref(L, e["x"]).conj().T
+    if o == "matmul":
+        return expr_ref(L, e["x"]) @ expr_ref(L, e["y"])
+    return expr_ref(L, e["x"]) + expr_ref(L, e["y"])
+
+
+def expr_rank(e):
+    if e["op"] == "leaf":
+        return max(len(t["pat"]) for t in e["terms"]["terms"])
+    if e["op"] == "adjoint":
+        return expr_rank(e["x"])
+    if e["op"] == "matmul":
+        return expr_rank(e["x"]) + expr_rank(e["y"])
+    return max(expr_rank(e["x"]), expr_rank(e["y"]))
+
+
+def expr_name(e):
+    if e["op"] == "leaf":
+        return "leaf[%s]" % ",".join(e["layouts"])
+    if e["op"] == "adjoint":
+        return "adjoint(%s)" % expr_name(e["x"])
+    return "%s(%s,%s)" % (e["op"], expr_name(e["x"]), expr_name(e["y"]))
+
+
+def rand_leaf(rng, L, kmax, layout=None, nterms=None):
+    terms = []
+    for _ in range(nterms or rng.choice([1, 1, 2])):
+        k = rng.choice([k for k in (1, 2, 2, 3) if k <= kmax])
+        terms.append((rand_pat(rng, k), rand_coeffs(rng, L, k, "dense")))
+    d = desc_terms(L, terms)
+    return {"op": "leaf", "terms": {"terms": d["terms"]}, "layouts": [layout or rng.choice(OP_LAYOUTS) for _ in terms]}
+
+
+OPERAND_SHAPES = ["leaf", "adjoint", "adjoint-adjoint", "adjoint-times-leaf", "leaf-times-adjoint", "adjoint-of-product",
+                  "product-of-adjoints", "sum-with-adjoint"]
+
+
+def rand_operand(rng, L, shape, kmax, layout=None):
+    lf = lambda km=kmax: rand_leaf(rng, L, km, layout)
+    adj = lambda x: {"op": "adjoint", "x": x}
+    if shape == "leaf":
+        return lf()
+    if shape == "adjoint":
+        return adj(lf())
+    if shape == "adjoint-adjoint":
+        return adj(adj(lf()))
+    km = max(1, min(2, kmax))
+    if shape == "adjoint-times-leaf":
+        return {"op": "matmul", "x": adj(lf(km)), "y": lf(km)}
+    if shape == "leaf-times-adjoint":
+        return {"op": "matmul", "x": lf(km), "y": adj(lf(km))}
+    if shape == "adjoint-of-product":
+        return adj({"op": "matmul", "x": lf(km), "y": lf(km)})
+    if shape == "product-of-adjoints":
+        return {"op": "matmul", "x": adj(lf(km)), "y": adj(lf(km))}
+    if shape == "sum-with-adjoint":
+        return {"op": "add", "x": lf(), "y": adj(lf())}
+    raise ValueError(shape)
+
+
+def operand_pairs(rng, thorough):
+    """(L, A, B): every layout for each side of @ and + against every layout of the other side (2-index tensors at
+    least on one side), and every library-made operand shape on each side"""
+    out = []
+    for la in OP_LAYOUTS:
+        for lb in OP_LAYOUTS:
+            if not thorough and la == "C" and lb == "C":
+                continue
+            L = rng.choice([2, 3])
+            a = rand_leaf(rng, L, 3 if L == 2 else 2, la, nterms=1)
+            b = rand_leaf(rng, L, 2, lb, nterms=rng.choice([1, 2]))
+            if all(len(t["pat"]) < 2 for t in a["terms"]["terms"]):
+                a = rand_leaf(rng, L, 2, la, nterms=1)
+                a["terms"]["terms"][0:1] = desc_terms(L, [(rand_pat(rng, 2), rand_coeffs(rng, L, 2, "dense"))])["terms"]
+            out.append((L, a, b))
+    for sa in OPERAND_SHAPES:
+        for sb in OPERAND_SHAPES:
+            if not thorough and rng.random() < 0.45 and "leaf" not in (sa, sb):
+                continue
+            L = 2
+            out.append((L, rand_operand(rng, L, sa, 2), rand_operand(rng, L, sb, 2)))
+    return out
+
+
+def oracle_operands(ctx, W, L, ea, eb):
+    """A + B, A @ B, B @ A for operands that are stored non-contiguously or were made by the library (adjoints,
+    products, sums of those): every matrix against the definition, computed from the logical description only"""
+    d = {"kind": "expr", "L": L, "a": ea, "b": eb, "shape": "%s ; %s" % (expr_name(ea), expr_name(eb))}
+    A, B = expr_build(W, L, ea), expr_build(W, L, eb)
+    RA, RB = expr_ref(L, ea), expr_ref(L, eb)
+    for nm, X, R in (("A", A, RA), ("B", B, RB)):
+        M = dense(X.as_matrix())
+        if not np.array_equal(M, R):
+            ctx.fail("operand:matrix-of-a-library-made-or-non-contiguous-operand-differs-from-the-definition", d,
+                     "matrix(%s) from the definition" % nm, "max diff %g" % np.abs(M - R).max())
+            return None
+    S = dense((A + B).as_matrix())
+    if not np.array_equal(S, RA + RB):
+        ctx.fail("add:matrix-not-sum(non-contiguous-or-library-made-operands)", d, "matrix(A+B) = matrix(A) + matrix(B)",
+                 "max diff %g" % np.abs(S - RA - RB).max())
+    for nm, X, Y, R in (("A@B", A, B, RA @ RB), ("B@A", B, A, RB @ RA)):
+        P = dense((X @ Y).as_matrix())
+        if not np.array_equal(P, R):
+            ctx.fail("matmul:matrix-not-product(non-contiguous-or-library-made-operands)", d,
+                     "matrix(%s) = product of the matrices" % nm, "max diff %g" % np.abs(P - R).max())
+    return A, B
+
+
+# ---------------------------------------------------------------------------------------------
 # history / aliasing: operations must not modify their operands, and results are reproducible
 def snapshot(W, fop):
     return [(tuple(W.pat_of(t)), np.array(t.coeffs, copy=True), np.asarray(t.coeffs).dtype.str) for t in fop.terms]
@@ -758,7 +1021,12 @@ def run(ctx):
                      "reference (rounding bound 0 for single contributions) and sent to the Coq model when binary64 arithmetic "
                      "was exact; homogeneity matrix(2^e A) = 2^e matrix(A) and additivity in the tensor; products of 5-8 operators; "
                      "history/aliasing: A+B, A@B, adjoint(), as_matrix() leave operands unchanged (value snapshots), repeated "
-                     "evaluation identical, operands with repeated patterns. non-trivial = distinct case "
+                     "evaluation identical, operands with repeated patterns. Hermitian flag both ways: every arrangement of 2 / 4 / 6 "
+                     "operators x coefficient tensors symmetric under reversal+conj / half exchange+conj / pair swaps+conj / cyclic shift / all "
+                     "permutations (real) / none / anti / one entry broken: flagged => Hermitian matrix, term equal to its adjoint => flagged. "
+                     "Operands of + and @: every memory layout (C, F, transposed view, strided with garbage, reversed, swapaxes view) on each side "
+                     "against every layout on the other, and operands made by the library (adjoint, adjoint of adjoint, products with / of adjoints, "
+                     "adjoint of a product, sum with an adjoint) on each side: matrices against the definition. non-trivial = distinct case "
                      "with at least one operator and a non-zero coefficient" % Lmax)
     ctx.lib(["Fermi/FermiCheck", "Fermi/FermiTerms"])
     ok = ctx.translate("GenFieldOp", gen_fermi.generate_fo)
@@ -929,6 +1197,22 @@ def run(ctx):
         add("CMul %s %s %s %s" % (ct.nat(L), cop(ta), cop(tb), cop(W.terms_of(A @ B))), dict(d, op="matmul"), nontrivial(ta) and nontrivial(tb))
         add("CAdj %s %s %s" % (ct.nat(L), cop(W.terms_of(A @ B)), cop(W.terms_of((A @ B).adjoint()))), dict(d, op="adjoint(A@B)"), True)
 
+    # memory layouts of both operands, operands made by the library itself (adjoints, products, sums of those)
+    for L, ea, eb in operand_pairs(rng, ctx.thorough):
+        d = {"kind": "expr", "L": L, "a": ea, "b": eb}
+        ctx.count("operand_pairs")
+        for e_ in (ea, eb):
+            ctx.count("operand_" + (e_["op"] if e_["op"] != "leaf" else "leaf_" + e_["layouts"][0]))
+        try:
+            r = oracle_operands(ctx, W, L, ea, eb)
+        except Exception as e:
+            ctx.fail("pair:exception", d, "sum/product", repr(e))
+            continue
+        if r is not None and expr_rank(ea) + expr_rank(eb) <= 6:
+            A, B = r
+            ta_, tb_ = W.terms_of(A), W.terms_of(B)
+            add("CMul %s %s %s %s" % (ct.nat(L), cop(ta_), cop(tb_), cop(W.terms_of(A @ B))), dict(d, op="matmul"), True)
+
     # ------------------------------------------------------------ history / aliasing
     for n in range(120 if ctx.thorough else 40):
         L = rng.choice([1, 2, 2, 3])
@@ -969,6 +1253,18 @@ def run(ctx):
             continue
         ctx.count("herm_flag_%s" % flag)
         add("CHerm %s %s %s" % (ct.nat(L), cterm(pat, c), ct.b(flag)), dict(d, op="is_hermitian"), len(pat) > 0)
+    # every arrangement of 2 / 4 / 6 operators x coefficient tensors with each kind of partial symmetry: the flag both ways
+    for L, pat, c, sym in herm_sweep_inputs(rng, ctx.thorough):
+        d = dict(desc_terms(L, [(pat, c)]), kind="herm2", symmetry=sym)
+        try:
+            flag, want, mh = oracle_herm2(ctx, W, L, pat, c, sym)
+        except Exception as e:
+            ctx.fail("is_hermitian:exception", d, "flag", repr(e))
+            continue
+        ctx.count("herm_sweep_len=%d_flag_%s" % (len(pat), flag))
+        ctx.count("herm_sweep_symmetry_%s_flag_%s" % (sym, flag))
+        if len(pat) <= 4 or sym in ("reversal", "half-exchange"):
+            add("CHerm %s %s %s" % (ct.nat(L), cterm(pat, c), ct.b(flag)), dict(d, op="is_hermitian"), True)
     # the flag is approximate (np.allclose): record one witness, not a violation
     L = 2
     c = np.array([[0, 1], [1 + 1e-9, 0]], dtype=complex)
@@ -1006,6 +1302,11 @@ def replay(ctx, data):
     elif kind == "herm":
         L, terms = undesc_terms(inp)
         oracle_herm(ctx, W, L, *terms[0])
+    elif kind == "herm2":
+        L, terms = undesc_terms(inp)
+        oracle_herm2(ctx, W, L, terms[0][0], terms[0][1], inp.get("symmetry"))
+    elif kind == "expr":
+        oracle_operands(ctx, W, inp["L"], inp["a"], inp["b"])
     elif kind == "opx":
         L, terms = undesc_terms(inp)
         oracle_opx(ctx, W, L, terms)
